@@ -181,6 +181,7 @@ pub struct Driver {
     pub ooc: bool,
     pub digest: u64,
     pub steps: u64,
+    pub hist_steps: u64,
     pub profile: Profile,
     pub props: u32, // bitmask of properties whose monitors may report (all run; others -> NOTE)
 }
@@ -205,6 +206,7 @@ impl Driver {
             ooc: false,
             digest: 0,
             steps: 0,
+            hist_steps: 0,
             profile: Profile::General,
             props: !0,
         }
@@ -267,6 +269,7 @@ impl Driver {
         }
         self.failed = false;
         self.digest = 0;
+        self.hist_steps = 0;
         self.tag = self.tag.wrapping_add(1).max(2);
         mem::scope_enter(self.tag);
     }
